@@ -6,6 +6,7 @@ differential runs of engine `net`, not proved.
 -/
 import Drand.Net.Protocol
 import DrandProofs.C02
+import DrandProofs.C07Net
 
 namespace Drand.Net
 
@@ -2165,5 +2166,58 @@ theorem c05_rejoin_needed (evs : List Ev) (h : ∀ e ∈ evs, ∀ i, e ≠ .rest
 /-- c05_no_skip and c05_heads_monotone are not vacuous: a delivery that completes the threshold moves a head by one -/
 example : ((ex3.advance.tick 0).tick 1).msgs[2]? = some ⟨1, 0, 1⟩ ∧
     ((((ex3.advance.tick 0).tick 1).apply (.deliver 2)).node 0).head = (((ex3.advance.tick 0).tick 1).node 0).head + 1 := by decide
+
+/-! ### a failing write below the wrappers -/
+
+/-- `schemeStore.Put` advances its cached head only after the store below accepted the beacon -/
+theorem tie_scheme_put_order :
+    Gen.schemePutOrder = ["check-prev", "a.Store.Put", "return-on-error", "a.last = b", "return nil"] := rfl
+
+open Drand.Chain in
+/-- **A failed Put can be retried.** When the base store refuses the write (transient error, cancelled context) the
+whole stack is exactly what it was — no cached head moved, nothing stored — so the same beacon (from the aggregator at
+the next tick, or from any sync) is accepted as if the failure had not happened; and with a base store that accepts,
+`putB` is `put`. -/
+theorem c05_failed_put_retry (s : Stack) (b : Drand.Beacon) :
+    (s.putB b false).1 = s ∧
+    s.putB b true = ((s.put b).1, some (s.put b).2) ∧
+    ((s.put b).2 = .ok → ((s.putB b false).1.putB b true).2 = some .ok ∧ ((s.putB b false).1.putB b true).1 = (s.put b).1) := by
+  have h1 : (s.putB b false).1 = s := by
+    unfold Stack.putB Stack.schemePutB
+    split
+    · split
+      · split <;> rfl
+      · rfl
+    · split
+      · rfl
+      · split
+        · split <;> rfl
+        · rfl
+  have h2 : s.putB b true = ((s.put b).1, some (s.put b).2) := by
+    unfold Stack.putB Stack.put Stack.schemePutB Stack.schemePut
+    split
+    · split
+      · split <;> rfl
+      · rfl
+    · split
+      · rfl
+      · split
+        · split <;> rfl
+        · rfl
+  refine ⟨h1, h2, fun hok => ?_⟩
+  rw [h1, h2]
+  exact ⟨by rw [hok], rfl⟩
+
+open Drand.Chain in
+/-- the order matters: with `a.last = b` before the underlying Put, one refused write of round 1 wedges the chained
+stack — the retry of the very same beacon is refused for its previous signature, for ever -/
+theorem c05_last_first_counterexample :
+    let s0 := Stack.init true [1]
+    let b : Drand.Beacon := ⟨1, [7], [1]⟩
+    (s0.put b).2 = .ok ∧
+    ((s0.putB b false).1.putB b true).2 = some .ok ∧
+    (let s1 := (s0.schemePutLastFirst b false).1
+     (s1.schemePutLastFirst b true).2 = some .badPrev ∧ (s1.put b).2 = .badPrev) := by
+  decide
 
 end Drand.Net
